@@ -27,6 +27,8 @@ type PodState struct {
 	NoLastTerm bool  `json:"noLastTerm,omitempty"` // restart count without lastState.terminated
 	RestartAgoSec int `json:"restartAgoSec,omitempty"`
 	Waiting   string `json:"waiting,omitempty"`
+	InitRestarts      int32 `json:"initRestarts,omitempty"` // restarts of an init container (status only)
+	InitRestartAgoSec int   `json:"initRestartAgoSec,omitempty"`
 	SideRestarts      int32 `json:"sideRestarts,omitempty"`
 	SideRestartAgoSec int   `json:"sideRestartAgoSec,omitempty"`
 	StartAgoSec int  `json:"startAgoSec,omitempty"`
@@ -124,6 +126,15 @@ func (s *Sim) finishInjected(p *corev1.Pod, nodeName string, ps PodState) {
 		p.Status.Phase = corev1.PodUnknown
 	default:
 		panic("pod state " + ps.Kind)
+	}
+	if ps.InitRestarts > 0 {
+		ago := time.Duration(ps.InitRestartAgoSec) * time.Second
+		if ago == 0 {
+			ago = 45 * time.Second
+		}
+		p.Status.InitContainerStatuses = []corev1.ContainerStatus{{Name: "init", Image: "init:1", Ready: true, RestartCount: ps.InitRestarts,
+			State:                corev1.ContainerState{Terminated: &corev1.ContainerStateTerminated{Reason: "Completed", ExitCode: 0, FinishedAt: metav1.NewTime(now.Add(-ago + time.Second))}},
+			LastTerminationState: corev1.ContainerState{Terminated: &corev1.ContainerStateTerminated{Reason: "Error", ExitCode: 1, FinishedAt: metav1.NewTime(now.Add(-ago))}}}}
 	}
 	if ps.Term || ps.StuckTerm {
 		g := int64(30)
